@@ -125,6 +125,18 @@ theorem passthrough_injective_partial (U : Nat → Bytes) (hU : Function.Injecti
     a ≠ b :=
   Proofs.C14.passthrough_injective_partial U hU d ops i j sc fb hfb n m a b hi hj hnm hdis
 
+/-- Default configuration: the provider installed by `PropagateDecoderPipeBlankNodeStringProvider` (pass-through
+    of the decoding string factory over a fresh UUID provider with format "%s") labels every node that is
+    not a string node of that factory with the bare text of a drawn UUID. Together with
+    `passthrough_injective_partial` (whose `hdis` then only fails for a document label that *is* the text of a
+    drawn UUID): two source nodes share a label only if a user-chosen label equals a generated UUID. -/
+theorem propagate_labels_uuid (U : Nat → Bytes) (d : Nat) (ops : List Op) (i j : Nat) (hij : i < j)
+    (sc : Nat) (p : ProvRef) (n : Node) (a : Bytes)
+    (hi : (trace U (init d) ops)[i]? = some (.propagate (some (.strf sc)), .prov p))
+    (hj : (trace U (init d) ops)[j]? = some (.getLabel p n, .label a))
+    (hn : ∀ v, n ≠ some (.bnString sc v)) : ∃ k, a = U k :=
+  Proofs.C14.propagate_labels_uuid U d ops i j hij sc p n a hi hj hn
+
 /-! ## Mapper -/
 
 /-- A mapper sends one node to the same node on every call. -/
